@@ -167,6 +167,8 @@ def run(ctx):
         ctx.ob("C19.R3b", L.short(fn)[:140], ok, fn.loc,
                "for_each must cover slots [0, ThreadId::end) (ever used); for_each_alive must follow the live-id enumeration")
     ctx.floor("C19.R3b", n3, 8, "for_each / for_each_alive instances")
+    import C14 as _C14
+    _C14.thread_id_instance_agreement(ctx, "C19.R3c", fb)
 
     # ---------------------------------------------------------------- R4 comparer
     n4 = 0
